@@ -33,6 +33,26 @@ CHECKS = {
     technique='TLA+ spec ModeBinning.tla: TLC proves the binning loops as written equal the declarative per-mode assignment for every instance and emits per-cell expected bins/multiplicities; the real bin_kmu/bin_kppi are probed cell by cell against it',
     text='For 139 (quick) instances of mesh size 2..8 (thorough 2..12) x k-edge families x mu/pi binnings TLC evaluates the loops as coded (folding, continue/break, incremental search, multiplicity, edge-array bounds) against the declarative full-mesh assignment (A=D; the original loops are rejected as positive control) and emits every half-mesh cell with its multiplicity and acceptable bins. The real kernels are probed with one indicator mesh per cell (bin, multiplicity, exactly-once), whole-call counts and thread invariance are checked, and value / |k| / (2l+1)P_l means and the l=0-vs-wedges identity are compared with an exact rational oracle; calc_pk_from_deltak and project_3d_to_poles are checked against bin_kmu.',
     note='dk = 1 (L = 2*pi) and half-unit edges make comparisons exact; a mode exactly on an edge may fall on either side; mu edges span [0,1]; P_l is evaluated in float32 inside the kernel (5e-5 tolerance for l>0).'),
+ 'C04': dict(
+    design='DESIGN.md §5 C04',
+    technique='TLA+ spec BitFields.tla: TLC checks round-trip / field-independence theorems of the documented layouts and enumerates boundary words with their expected decode; real decoders compared on them in every output mode; TLC-validated twin sweeps the word space',
+    text='TLC proves on the specification that RVint encode/decode round-trips, that position and velocity fields are independent, and that every aux field is recovered unchanged under all patterns of the non-field bits, and emits 5144 boundary words with expected integer fields. unpack_rvint / unpack_pids are run on them in all 9 / 31 output-selection modes, float32/float64, four (BoxSize, ppd): values must equal the spec (velocities exactly, positions to 2 ulp) and be identical across modes. A Python twin of layer D, required to agree with TLC on every enumerated word, then judges 3M random RVint words and 1M aux words (quick) or all 2^32 RVint words and 10^7 aux words (thorough).',
+    note='The layout transcription in BitFields.tla is taken from the property text / data-model comments; float scaling tolerances: 2 ulp (positions), few ulp (lagr_pos).'),
+ 'C15': dict(
+    design='DESIGN.md §5 C15',
+    technique='TLA+ spec Pack9.tla: TLC proves the nibble shuffle is a bijection and enumerates all field values / header-particle interleavings with the expected integer decode; unpack_pack9 and read_asdf replayed on them',
+    text='TLC checks that Expand/Pack is a bijection over one-field sweeps of all 4096 values of each of the six fields (x corner patterns), that exactly one particle is produced per non-header record, and emits 245k single-record cases under two cell headers plus all 341 header/particle interleavings of length <=5 with expected integer positions/velocities. unpack_pack9 is run on them (pos/vel/both, allocated/supplied, float32/64, shuffled order with repeated headers), and read_asdf on harness-written pack9 files.',
+    note='Positions compared at 1e-3 quantum + 8 ulp(BoxSize), velocities at 8 ulp; streams start with a header.'),
+ 'C16': dict(
+    design='DESIGN.md §5 C16',
+    technique='TLA+ spec ReadAsdf.tla: decision table over the complete configuration space enumerated by TLC; every configuration executed by read_asdf on real files',
+    text='TLC enumerates all 3179 configurations (raw columns present x colname x load x deprecated flags) with the outcome the documentation fixes (error, or the exact column set) and checks the table theorems; read_asdf is executed for every one on real ASDF files (31 raw-column sets, snapshot and light-cone headers, float32/64): raising vs not, column set, row count, values against the direct decoders, dtype and metadata.',
+    note='Decoders are trusted here (verified by C04/C15); explicit colname of an unknown raw column and requests a file type cannot provide are outside the table.'),
+ 'C20': dict(
+    design='DESIGN.md §5 C20',
+    technique='TLA+ spec PipeFraming.tla (token stream / error-with-zero-bytes) with TLC-enumerated file sets x requests replayed on unpack_to_pipe and the CLI; recorded write events validated by TLC (PipeTrace.tla)',
+    text='TLC enumerates 360 (quick) / ~2000 (thorough) combinations of file sets (1-3 files, 1-D, multi-dimensional and empty columns of widths 1/2/4/8, files lacking a field, a non-file path) and request sequences (repeated and unknown fields) with the expected count/width/payload token stream or error; each is run on real ASDF files through unpack_to_pipe with a recording pipe and, for a subset, through the CLI and a real OS pipe; byte streams are compared and the recorded write-event sequences are validated by TLC; corrupted traces must be rejected.',
+    note='Files are uncompressed (asdf 5.4 cannot write blsc); the blsc reader is covered by C14.'),
 }
 NA = [
  dict(property_id='C18', reason='Pure real-valued geometry (square roots, sines, cross products) on a fixed finite domain of 65 340 codes: no state, order, schedule or index structure for a TLA+ transition system, and orthonormality/coverage are floating-point facts outside TLC integer arithmetic; an exhaustive numeric sweep would be a different technique (DESIGN.md §7).'),
